@@ -160,3 +160,46 @@ pub fn c01_cell(data: &[u8]) {
         }
     }
 }
+
+/// Writes `n` seed inputs for the target of property `id` into `dir` (file name = content hash).
+pub fn emit_corpus(id: &str, dir: &std::path::Path, n: usize, seed: u64) -> i32 {
+    use crate::gen_frames::{decode_cfg, frame_model};
+    use crate::wire::response::encode_frame;
+    if std::fs::create_dir_all(dir).is_err() {
+        return 2;
+    }
+    let mut runner = crate::runner::runner_for(seed, "corpus", 1);
+    let mut written = 0usize;
+    for _ in 0..n {
+        let bytes: Vec<u8> = match id {
+            "C08" => {
+                let cfg = decode_cfg().new_tree(&mut runner).unwrap().current();
+                let model = frame_model(cfg).new_tree(&mut runner).unwrap().current();
+                let frame = encode_frame(&model.env, &model.body);
+                if frame.len() > 4000 {
+                    continue;
+                }
+                c08_corpus_entry(&cfg, &frame)
+            }
+            "C01" => {
+                let tb = crate::checks::c17::tables();
+                let ti = proptest::num::u16::ANY.new_tree(&mut runner).unwrap().current() as usize % tb.types.len();
+                let v = crate::gen_values::mval(&tb.types[ti]).new_tree(&mut runner).unwrap().current();
+                let Ok(cell) = crate::wire::value::ref_encode(&tb.types[ti], &v) else { continue };
+                if cell.len() > 250 {
+                    continue;
+                }
+                let mut b = (ti as u16).to_le_bytes().to_vec();
+                b.extend_from_slice(&cell);
+                b
+            }
+            _ => return 2,
+        };
+        let name = format!("{:016x}", crate::runner::fnv(&bytes));
+        if std::fs::write(dir.join(name), &bytes).is_ok() {
+            written += 1;
+        }
+    }
+    println!("{written} corpus files written to {}", dir.display());
+    0
+}
